@@ -33,7 +33,8 @@ class EASRadio:
             + losDist * losDist
             - 2 * losDist * lenDec * np.cos(exitView)
         )
-        ang = np.arcsin(np.sqrt(s2phi))
+        # at the point of closest approach to the detector s2phi is 1 and can round above it
+        ang = np.arcsin(np.sqrt(np.clip(s2phi, 0.0, 1.0)))
         return ang
 
     @decorators.nss_result_store("EFields")
